@@ -27,7 +27,7 @@ LEVEL = {"C14": "exploration", "C15": "fault_enumeration"}
 PLAN = {
     "C14": {"quick": {"runs": 60000, "wall_cap": 110, "chunk": 200, "selftest": 8},
             "thorough": {"runs": 2000000, "wall_cap": 1700, "chunk": 500, "selftest": 40}},
-    "C15": {"quick": {"runs": 2000, "wall_cap": 110, "chunk": 10, "selftest": 4},
+    "C15": {"quick": {"runs": 1000, "wall_cap": 110, "chunk": 8, "selftest": 4},
             "thorough": {"runs": 20000, "wall_cap": 1700, "chunk": 10, "selftest": 16}},
 }
 RULE = {
@@ -67,7 +67,7 @@ ASSUMPTIONS = {
 EXPECTED_PROBES = {
     "C14": ["probe:hit_after_restart", "probe:hit_same_process", "probe:improved_overwrite_search", "probe:cache_only_refusal",
             "probe:cache_only_hit", "probe:shared_entry_allowed", "probe:sliced_entry_served", "step:update_from_tree",
-            "probe:hash_b_hit"],
+            "probe:hash_b_hit", "probe:shared_mutable_args"],
     "C15": ["crash:open", "crash:write-torn", "crash:mkdir", "outcome:old-entry-served", "outcome:new-entry-served",
             "outcome:searched-again", "probe:real_exit_crosscheck", "probe:second_crash", "probe:other_entries_checked"],
 }
@@ -218,6 +218,8 @@ def check_tree(tree, q):
     inputs, output, size_dict = _q_args(q)
     if not tree.is_complete():
         return "tree is not complete"
+    if len(tree.inputs) != tree.N or tree.N != len(inputs):
+        return f"tree.N={tree.N} but the query has {len(inputs)} tensors"
     if tuple(tuple(t) for t in tree.inputs) != inputs:
         return f"tree.inputs {tree.inputs} != queried {inputs}"
     if tuple(tree.output) != output:
@@ -298,7 +300,10 @@ def gen_case_c14(seed, tier):
                           "slice_k": ops_rng.choice([None, None, 0, 1])})
     first = gen_cfg_changes()
     first["cache_only"] = False
-    return {"seed": seed, "prop": "C14", "pool": pool, "cfg": cfg0, "first_cfg": first, "use_dir": use_dir, "steps": steps}
+    # some callers keep ONE inputs/output/size_dict object and edit it in place between queries (e.g. a bond-dimension sweep)
+    args_mode = sw.choice(["fresh", "fresh", "shared-mutable"])
+    return {"seed": seed, "prop": "C14", "pool": pool, "cfg": cfg0, "first_cfg": first, "use_dir": use_dir, "steps": steps,
+            "args_mode": args_mode}
 
 
 def run_case_c14(case):
@@ -321,6 +326,7 @@ def run_case_c14(case):
     cur = {"hk": None}
     restarts = 0
     stored_once = False
+    live_inputs, live_output, live_sizes = [], [], {}
 
     def V(oracle, detail, **sig):
         s = {"kind": kind, "hash_method": hash_method, "dir": bool(directory),
@@ -365,6 +371,14 @@ def run_case_c14(case):
                     continue
                 q = pool[st["q"] % len(pool)]
                 args = _q_args(q)
+                if case.get("args_mode") == "shared-mutable":
+                    # the caller's own long-lived containers, updated in place to describe this query
+                    live_inputs[:] = [list(t) for t in q["inputs"]]
+                    live_output[:] = list(q["output"])
+                    live_sizes.clear()
+                    live_sizes.update(q["size_dict"])
+                    args = (live_inputs, live_output, live_sizes)
+                    counters["probe:shared_mutable_args"] += 1
                 prng.reseed_globals(prng.H(case["seed"], "step", si))
                 try:
                     h, _missing = opt.hash_query(*args)
